@@ -234,7 +234,7 @@ def r7(ctx: RuleCtx) -> None:
     tok, esc = ps
     ml_term = ('op', 'In', (('const', 'multiline'), ('name', f'{tok}.tid')))
     seen: T.Set[T.Tuple[T.Any, T.Any]] = set()
-    for sp in sym_paths(init):
+    for sp in sym_paths(init, mod=mod):
         if sp.outcome == 'raise':
             continue
         e_val = m_val = None
@@ -263,36 +263,60 @@ def r7(ctx: RuleCtx) -> None:
                     f'StringNode: escape={e_val} multiline={m_val} decoded={decoded}',
                     f'with escape={e_val} and a {"multi-line" if m_val else "single-line"} token the value is {"decoded" if decoded else "left raw"}; '
                     "reference: '...' decodes escapes, '''...''' does not", sp.last_node)
-    # meaning of is_multiline for each declared string token kind (finite domain: ALL_STRINGS), by constant folding of its defining expression
-    defs = [st for st in ast.walk(init) if isinstance(st, ast.Assign) and len(st.targets) == 1 and norm(st.targets[0]) == 'self.is_multiline']
-    if len(defs) != 1:
-        raise Undecided('StringNode.__init__: is_multiline is not assigned exactly once')
+    # meaning of is_multiline for each declared string token kind (finite domain: ALL_STRINGS): the reaching definition written to the
+    # attribute (locals resolved) is folded with the token id replaced by each kind
+    ml_terms = {_strip_calls(w) for sp in sym_paths(init, mod=mod) for w in sp.writes('self.is_multiline')}
+    if len(ml_terms) != 1:
+        raise Undecided('StringNode.__init__: is_multiline is not defined by one expression')
+    mterm = next(iter(ml_terms))
+    tid_term = ('name', f'{tok}.tid')
 
-    class _Tid(ast.NodeTransformer):
-        def __init__(self, tid: str):
-            self.tid = tid
-
-        def visit_Attribute(self, n: ast.Attribute) -> ast.AST:
-            if norm(n) == f'{tok}.tid':
-                return ast.copy_location(ast.Constant(value=self.tid), n)
-            return self.generic_visit(n)
-    import copy as _cp
+    def fold_term(t: T.Any, tid: str) -> T.Any:
+        if t == tid_term:
+            return tid
+        if not isinstance(t, tuple):
+            raise Undecided('is_multiline: unknown term')
+        if t[0] == 'const':
+            return t[1]
+        if t[0] in ('tuple', 'list', 'set'):
+            return [fold_term(x, tid) for x in t[1]]
+        if t[0] == 'name' and '.' not in t[1] and mod.has_assign(t[1]):
+            return fold_expr(repo, mod, ast.Name(id=t[1], ctx=ast.Load()))
+        if t[0] == 'op':
+            vs = [fold_term(x, tid) for x in t[2]]
+            try:
+                if t[1] == 'In':
+                    return vs[0] in vs[1]
+                if t[1] == 'NotIn':
+                    return vs[0] not in vs[1]
+                if t[1] in ('Eq', 'Is'):
+                    return vs[0] == vs[1]
+                if t[1] in ('NotEq', 'IsNot'):
+                    return vs[0] != vs[1]
+                if t[1] == 'Not':
+                    return not vs[0]
+                if t[1] == 'And':
+                    return all(vs)
+                if t[1] == 'Or':
+                    return any(vs)
+            except TypeError:
+                pass
+        raise Undecided(f'StringNode.__init__: is_multiline is defined by {show(t) if len(t) == 6 else t[0]}, which does not fold over the token kinds')
+    idef = [st for st in ast.walk(init) if isinstance(st, ast.Assign) and len(st.targets) == 1 and norm(st.targets[0]) == 'self.is_multiline']
     for tid in strings:
-        e = _Tid(tid).visit(_cp.deepcopy(defs[0].value))
-        ast.fix_missing_locations(e)
-        got_ml = fold_expr(repo, mod, e)
+        got_ml = fold_term(mterm, tid)
         if not isinstance(got_ml, bool):
             raise Undecided(f'StringNode.__init__: is_multiline does not fold to a boolean for the token kind {tid}')
         ctx.require(got_ml == ('multiline' in tid), f'StringNode: a {tid} token is {"" if "multiline" in tid else "not "}multi-line', mod, 'StringNode.__init__',
-                    f'is_multiline for {tid}: {got_ml}', f'for a {tid} token is_multiline is computed as {got_ml} (`{short(defs[0].value, 60)}`): '
-                    "'''...''' literals are raw, '...' literals decode escapes", defs[0])
+                    f'is_multiline for {tid}: {got_ml}', f'for a {tid} token is_multiline is computed as {got_ml}: '
+                    "'''...''' literals are raw, '...' literals decode escapes", idef[0] if idef else init)
     ctx.require(any(m is False for _, m in seen) and any(m is True for _, m in seen), 'StringNode: both the single-line and the multi-line row exist', mod, 'StringNode.__init__',
                 f'StringNode rows {sorted(map(str, seen))}', f'rows {sorted(map(str, seen))}', init)
     esc_fn = mod.func('StringNode.escape')
     regex_name = None
     callback = None
     verdicts = []
-    for sp in sym_paths(esc_fn):
+    for sp in sym_paths(esc_fn, mod=mod):
         if sp.outcome != 'return':
             continue
         subs = [t for t in subterms(sp.result) if is_call(t) and (t[2].endswith('.sub') or t[2] == 're.sub')]
@@ -313,7 +337,7 @@ def r7(ctx: RuleCtx) -> None:
         raise Undecided(f'StringNode.escape: replacement callback {callback} is not a module function')
     dm = mod.func(callback)
     codecs_calls = []
-    for sp in sym_paths(dm):
+    for sp in sym_paths(dm, mod=mod):
         codecs_calls += [t for t in subterms(sp.result) if is_call(t, 'codecs.decode')]
     if not codecs_calls:
         raise Undecided(f'{callback}: no codecs.decode call found')
